@@ -793,8 +793,29 @@ def r6_layout_level_rejections(ctx, ck):
     UA = "layout_parsing_formatting::mapping_all_used_aliases"
     HK = "layout_parsing_formatting::has_exactly_keys"
 
+    cg = ctx.callgraph()
+
     def local_calls(t):
-        return {x[1] for x in _subterms(t) if isinstance(x, tuple) and x and x[0] == "call" and isinstance(x[1], str) and x[1] in ctx.F.raw_bodies}
+        """crate-local functions called in the term, closures it passes along included (their bodies' callees)"""
+        out = set()
+        todo = []
+        for x in _subterms(t):
+            if isinstance(x, tuple) and x and x[0] == "call" and isinstance(x[1], str) and x[1] in ctx.F.raw_bodies:
+                out.add(x[1])
+            if isinstance(x, tuple) and len(x) > 1 and x[0] == "closure" and isinstance(x[1], str):
+                todo.append(x[1])
+        seen = set()
+        while todo:
+            c = todo.pop()
+            if c in seen:
+                continue
+            seen.add(c)
+            for callee in cg.get(c, ()):
+                if "{closure" in callee:
+                    todo.append(callee)
+                elif callee in ctx.F.raw_bodies:
+                    out.add(callee)
+        return out
 
     def is_next(g):
         return isinstance(g.a, tuple) and g.a[0] == "variantof" and isinstance(g.a[1], tuple) and g.a[1] and g.a[1][0] == "next"
@@ -805,6 +826,11 @@ def r6_layout_level_rejections(ctx, ck):
         if isinstance(a, tuple) and a[0] == "variantof":
             inner = mir.strip(a[1])
             if isinstance(inner, tuple) and inner[0] == "call" and inner[1] == PM and g.b == "Err":
+                return "mapping-refused-by-parse_mapping_from_json"
+            # the same through `?`, map_err, or a collect() into Result<Vec<_>, _>: the failing side of a value that is
+            # made from parse_mapping_from_json's result and from nothing else of this crate
+            lc = local_calls(a)
+            if PM in lc and lc <= {PM} and g.b in ("Err", "Break", "None"):
                 return "mapping-refused-by-parse_mapping_from_json"
         if isinstance(a, tuple) and a and a[0] == "in" and g.b is False and UA in local_calls(a[1]):
             return "alias-not-defined"
@@ -853,7 +879,7 @@ def r6_layout_level_rejections(ctx, ck):
         n += 1
         if cls:
             classes.add(cls)
-        ck.ob("C15-R6", fn, "a-document-is-refused-only-for-its-shape,a-refused-mapping-or-an-undefined-alias", cls == "document-shape" and not idx,
+        ck.ob("C15-R6", fn, "a-document-is-refused-only-for-its-shape,a-refused-mapping-or-an-undefined-alias", cls is not None and (not idx or cls != "document-shape"),
               detail=cls or "refused when %s = %s" % (show(gs[-1].a)[:100], gs[-1].b))
     ck.analysed["layout_level_rejections"] = n
     ck.floor("C15-R6", "layout-level-rejection-sites", n, 3)
